@@ -58,6 +58,11 @@ def misc_schemas(spec: str) -> Iterator[dict]:
     yield {"enum": ["a", 1]}
     yield {"type": "string", "enum": ["x", "y"]}
     yield {"type": "integer", "enum": [1, 2]}
+    # keywords written out with their neutral value (same meaning as leaving them out)
+    if spec != "3.1":
+        yield {"type": "integer", "minimum": 1, "exclusiveMinimum": False}
+        yield {"type": "integer", "maximum": 1, "exclusiveMaximum": False}
+    yield {"type": "string", ("x-nullable" if spec == "2.0" else "nullable"): False} if spec != "3.1" else {"type": "string", "minLength": 0}
     if spec == "3.1":
         yield {"type": ["string", "null"]}
         yield {"type": ["integer", "null"], "minimum": 1}
@@ -70,7 +75,7 @@ def misc_schemas(spec: str) -> Iterator[dict]:
 
 def array_schemas(k: int) -> Iterator[dict]:
     for items in ({"type": "string"}, {"type": "integer"}, {"type": "boolean"}, {"type": "integer", "minimum": 1, "maximum": 2}):
-        opts: list[tuple[str, list[Any]]] = [("minItems", [0, 1, 2]), ("maxItems", [0, 1, 2]), ("uniqueItems", [True])]
+        opts: list[tuple[str, list[Any]]] = [("minItems", [0, 1, 2]), ("maxItems", [0, 1, 2]), ("uniqueItems", [True, False])]
         for kw in subsets(opts, k):
             yield {"type": "array", "items": copy.deepcopy(items), **kw}
 
@@ -86,6 +91,8 @@ def object_schemas() -> Iterator[dict]:
             if ap is not None:
                 s["additionalProperties"] = ap
             yield s
+    yield {"type": "object", "properties": {"a": dict(p_int), "b": dict(p_str)}, "required": ["a"], "additionalProperties": True}
+    yield {"type": "object", "properties": {"a": dict(p_int), "r": {"type": "string", "readOnly": False}}, "required": ["a", "r"]}
     yield {"type": "object", "properties": {"a": dict(p_int), "r": {"type": "string", "readOnly": True}}, "required": ["a", "r"]}
     yield {"type": "object", "properties": {"a": dict(p_int), "r": {"type": "integer", "readOnly": True}}}
     yield {"type": "object", "properties": {"a": dict(p_int)}, "minProperties": 1}
